@@ -1,6 +1,6 @@
 (* C14 — The route cache is a bounded LRU map and repeats are served from it.
    Property theorems only; every proof is `exact <lemma>`; see CacheFacts.v / TableFacts.v. *)
-From Rux Require Import Base Cache CacheFacts.
+From Rux Require Import Base Cache CacheFacts Table TableFacts.
 
 Section C14.
 Variable val : Type.
@@ -57,7 +57,17 @@ Theorem C14_set_then_get : forall cap l k v, 1 <= cap -> ainv val cap l ->
 Proof. exact (after_set_get val). Qed.
 End C14.
 
+(* the router: after a request has been resolved dynamically with caching enabled (capacity >= 1), the entry for
+   exactly that method and path is the most recent one, so an immediate repeat is answered from the cache *)
+Theorem C14_router_key : forall rt m path rid ps,
+  o_caching (ropts rt) = true -> 1 <= o_cap (ropts rt) -> ainv (nat * params) (o_cap (ropts rt)) (cache rt) ->
+  assoc (m ++ path) (stable rt) = None ->
+  fst (match_ rt m path) = LHit rid (Some ps) ->
+  exists rest, cache (snd (match_ rt m path)) = (m ++ path, (rid, ps)) :: rest.
+Proof. exact dynamic_match_cached. Qed.
+
 Print Assumptions C14_refines_spec.
+Print Assumptions C14_router_key.
 Print Assumptions C14_bound_nodup.
 Print Assumptions C14_set_mru.
 Print Assumptions C14_get_mru.
